@@ -1025,7 +1025,7 @@ def main():
         "violation (finding C13/glob-star)",
     ]
     chk.trusted = ["hand-written models coq/theories/KeyMatch.v Glob.v IpMatch.v, tied to the code by this differential check"]
-    chk.build(translators=["keymatch", "rangematch"])
+    chk.build(translators=["keymatch", "rangematch", "globmatch"])
     if chk.replay_file:
         return replay(chk)
     if chk.tier == "thorough":
